@@ -163,6 +163,10 @@ PROPS = {
     },
     "C01": {
         "level": "exploration",
+        # a goroutine of the code under test that spins (a collection that never ends) is this
+        # property failing; a stall that cannot be attributed to repository code stays exit 2
+        "stall_is_violation": True,
+        "stall_s": 20,
         "budget": {"quick": 50, "thorough": 600},
         "runs": {"quick": 16000, "thorough": 1200000},
         "rule": "one run = the real sync.Run loop for 3..50 rounds on a simulated system clock with a recording discipline, 0..7 scripted reference clocks and "
@@ -214,6 +218,10 @@ PROPS = {
     },
     "C15": {
         "level": "exploration",
+        # a goroutine of the code under test that spins (a collection that never ends) is this
+        # property failing; a stall that cannot be attributed to repository code stays exit 2
+        "stall_is_violation": True,
+        "stall_s": 20,
         "budget": {"quick": 80, "thorough": 900},
         "runs": {"quick": 3000, "thorough": 300000},
         "rule": "one run = 2..10 rounds of the real MeasureClockOffsetSCION with 1..7 real SCIONClients (interleaved mode, recording filters, told apart on the wire by DSCP) and 0..10 paths, each through its own relay router; "
@@ -228,6 +236,10 @@ PROPS = {
     },
     "C16": {
         "level": "exploration",
+        # a goroutine of the code under test that spins (a collection that never ends) is this
+        # property failing; a stall that cannot be attributed to repository code stays exit 2
+        "stall_is_violation": True,
+        "stall_s": 20,
         "budget": {"quick": 40, "thorough": 600},
         "runs": {"quick": 20000, "thorough": 1500000},
         "rule": "one run = one real ReferenceClockClient.MeasureClockOffsets call with a context deadline in {0,1ns,1ms,500ms,3s} over 0..8 scripted "
